@@ -141,3 +141,108 @@ theorem histFwd_eq_spec (o : HOpts) (hr : o.range = none) (snap : Nat) (keys : L
   congr 1
   funext kv
   rw [histKeyFwd_eq_spec o hr snap kv.2]
+
+/-! ### get_at -/
+
+def TsDesc (l : List HVer) : Prop := l.Pairwise (fun a b => b.ts < a.ts)
+
+theorem getAtGo_some_stable (t : Nat) (b : HVer) : ∀ (l : List HVer), (∀ v ∈ l, v.ts < b.ts) →
+    getAtGo t (some b) l = some b := by
+  intro l
+  induction l with
+  | nil => intro _; rfl
+  | cons v rest ih =>
+    intro h
+    have hv := h v List.mem_cons_self
+    simp only [getAtGo]
+    have : (decide (v.ts ≤ t) && decide (v.ts ≥ b.ts)) = false := by
+      simp only [Bool.and_eq_false_iff, decide_eq_false_iff_not]; right; omega
+    simp only [this, Bool.false_eq_true, if_false]
+    exact ih (fun x hx => h x (List.mem_cons_of_mem _ hx))
+
+/-- on a list with strictly decreasing timestamps `get_at` picks the first entry at or below `t` -/
+theorem getAtGo_eq_find (t : Nat) : ∀ (l : List HVer), TsDesc l →
+    getAtGo t none l = l.find? (fun v => decide (v.ts ≤ t)) := by
+  intro l
+  induction l with
+  | nil => intro _; rfl
+  | cons v rest ih =>
+    intro h
+    have hp := List.pairwise_cons.mp h
+    simp only [getAtGo, List.find?_cons]
+    by_cases hv : v.ts ≤ t
+    · simp only [hv, decide_true, Nat.zero_le, Bool.and_self, if_true]
+      exact getAtGo_some_stable t v rest (fun x hx => hp.1 x hx)
+    · simp only [hv, decide_false, Bool.false_and, Bool.false_eq_true, if_false]
+      exact ih hp.2
+
+theorem fold_pick_stable (b : HVer) : ∀ (l : List HVer), (∀ v ∈ l, v.ts < b.ts) →
+    l.foldl specPick (some b) = some b := by
+  intro l
+  induction l with
+  | nil => intro _; rfl
+  | cons v rest ih =>
+    intro h
+    have hv := h v List.mem_cons_self
+    simp only [List.foldl_cons, specPick]
+    have : ¬ v.ts > b.ts := by omega
+    simp only [this, if_false]
+    exact ih (fun x hx => h x (List.mem_cons_of_mem _ hx))
+
+theorem fold_pick_eq_head (l : List HVer) (h : TsDesc l) : l.foldl specPick none = l.head? := by
+  cases l with
+  | nil => rfl
+  | cons v rest =>
+    have hp := List.pairwise_cons.mp h
+    simp only [List.foldl_cons, specPick, List.head?_cons]
+    exact fold_pick_stable v rest (fun x hx => hp.1 x hx)
+
+theorem tsDesc_filter (l : List HVer) (p : HVer → Bool) (h : TsDesc l) : TsDesc (l.filter p) :=
+  List.Pairwise.sublist List.filter_sublist h
+
+theorem hRetainedGo_sublist : ∀ (l : List HVer), (hRetainedGo l).Sublist l := by
+  intro l
+  induction l with
+  | nil => exact List.Sublist.slnil
+  | cons v rest ih =>
+    simp only [hRetainedGo]
+    split
+    · exact List.nil_sublist _
+    · split
+      · exact (List.nil_sublist rest).cons₂ v
+      · exact ih.cons₂ v
+
+theorem hRetained_sublist (l : List HVer) : (hRetained l).Sublist l := by
+  unfold hRetained
+  cases l with
+  | nil => exact List.Sublist.slnil
+  | cons v rest =>
+    simp only
+    split
+    · exact List.nil_sublist _
+    · exact hRetainedGo_sublist _
+
+theorem specKey_tsDesc (o : HOpts) (snap : Nat) (vs : List HVer) (h : TsDesc vs) : TsDesc (specKey o snap vs) := by
+  unfold specKey
+  apply tsDesc_filter
+  exact List.Pairwise.sublist (hRetained_sublist _) (tsDesc_filter vs _ h)
+
+theorem find_filter_head (l : List HVer) (p : HVer → Bool) : l.find? p = (l.filter p).head? := by
+  induction l with
+  | nil => rfl
+  | cons v rest ih =>
+    simp only [List.find?_cons, List.filter_cons]
+    cases hp : p v
+    · simp only [Bool.false_eq_true, if_false]; exact ih
+    · simp
+
+/-- **get_at is the property** when timestamps strictly decrease along the versions (newest first) -/
+theorem getAt_eq_spec (snap t : Nat) (vs : List HVer) (h : TsDesc vs) : getAt snap t vs = specGetAt snap t vs := by
+  unfold getAt specGetAt
+  have hk := histKeyFwd_eq_spec { tombs := true } rfl snap vs
+  simp only at hk
+  rw [hk]
+  have hd := specKey_tsDesc { tombs := true } snap vs h
+  rw [getAtGo_eq_find t _ hd, find_filter_head]
+  have hf : TsDesc ((specKey { tombs := true } snap vs).filter (fun v => decide (v.ts ≤ t))) := tsDesc_filter _ _ hd
+  simp only [fold_pick_eq_head _ hf]
